@@ -18,6 +18,11 @@
 //! * **mapsize** — the same generated history (profile `c10map`) under 12 map sizes from
 //!   64 KiB to 256 MiB, one case each; the first `MDB_MAP_FULL` is followed by `abort`,
 //!   `dump` and the end of the case.
+//! * **mapsweep** — one committed set of items (400-900, dims 3-6) and one build (`ntrees` 4-10, `split_after`
+//!   20-100: most of the writes are new roots, re-split buckets and the metadata) under EVERY map size, page by
+//!   page, from the smallest in which the items can be committed to two pages above the smallest in which the
+//!   build succeeds; a second flavour sweeps an incremental build (50 deletions + 300 insertions on a built
+//!   index). One case per size (`note faults mapsweep …`): the build must answer `ok` or `MDB_MAP_FULL`.
 //! * **tmpdir** — `build ... tmpdir=missing` / `tmpdir=readonly` (the harness calls
 //!   `set_tmpdir` with a directory that does not exist / a mode 0555 directory) must answer
 //!   `res err io ...`; then `abort dump` and the retry `begin T build dump commit dump`. When
@@ -425,6 +430,100 @@ fn mem_sweep_case(
     Ok(())
 }
 
+/// Every map size between "the items fit" and "the build fits", page by page.
+fn map_sweep(case: &mut u64, seed: u64, incremental: bool, out: &mut dyn Write) -> Result<(), String> {
+    let mut m = Mini::new(seed, seed % 7);
+    m.w.dims = m.r.urange(3, 6);
+    let mut setup = Vec::new();
+    let mut setup_build = None;
+    let pending;
+    if incremental {
+        let n0 = m.r.urange(300, 500);
+        setup = m.adds(n0);
+        setup_build = Some(BuildOpts {
+            ntrees: Some(m.r.urange(2, 5)),
+            split: Some(m.r.urange(8, 40)),
+            mem: None,
+            cancel: None,
+            threads: 1,
+            seed: m.r.next_u64(),
+            tmpdir: None,
+        });
+        let mut ops = m.churn(50, 0);
+        ops.extend(m.adds(300));
+        pending = ops;
+    } else {
+        let n = m.r.urange(400, 900);
+        pending = m.adds(n);
+    }
+    let opts = BuildOpts {
+        ntrees: Some(m.r.urange(4, 10)),
+        split: Some(m.r.urange(20, 100)),
+        mem: None,
+        cancel: None,
+        threads: 1,
+        seed: m.r.next_u64(),
+        tmpdir: None,
+    };
+    let plan = MemPlan { m, setup, setup_build, pending, opts };
+    let w = plan.m.w;
+    // the range: [first size in which everything but the build fits, first size in which the build fits + 2]
+    let mut lo = None;
+    let mut hi = None;
+    for pages in 8..=2048usize {
+        let env = CaseEnv::new(pages * 4096)?;
+        let mut sink = std::io::sink();
+        let mut ex = Executor::new(&env, &mut sink);
+        if !mem_prepare(&mut ex, &plan, false) {
+            continue;
+        }
+        if lo.is_none() {
+            lo = Some(pages);
+        }
+        ex.exec(&Op::Begin);
+        ex.exec(&Op::Build(w, plan.opts.clone()));
+        let ok = ex.last_res.starts_with("ok");
+        ex.finish();
+        if ok {
+            hi = Some(pages);
+            break;
+        }
+    }
+    let (Some(lo), Some(hi)) = (lo, hi) else {
+        header(out, *case, seed, DEFAULT_MAPSIZE);
+        let _ = writeln!(out, "note faults mapsweep: no map size found");
+        let _ = writeln!(out, "endcase");
+        *case += 1;
+        return Ok(());
+    };
+    for pages in lo..=hi + 2 {
+        let env = CaseEnv::new(pages * 4096)?;
+        header(out, *case, seed, pages * 4096);
+        *case += 1;
+        let mut ex = Executor::new(&env, &mut *out);
+        if ex.exec(&Op::Note(format!(
+            "faults mapsweep pages={pages} range={lo}..{} incremental={incremental} index={} metric={} dims={}",
+            hi + 2,
+            w.index,
+            w.metric.name(),
+            w.dims
+        ))) != Outcome::Panic
+            && mem_prepare(&mut ex, &plan, false)
+            && ex.exec(&Op::Begin) != Outcome::Panic
+            && ex.exec(&Op::Build(w, plan.opts.clone())) != Outcome::Panic
+        {
+            if ex.last_res.starts_with("ok") {
+                let _ = ex.exec(&Op::Dump);
+            }
+            let _ = ex.exec(&Op::Abort) != Outcome::Panic && ex.exec(&Op::Dump) != Outcome::Panic;
+        }
+        ex.finish();
+        drop(ex);
+        let _ = writeln!(out, "endcase");
+    }
+    Ok(())
+}
+
 pub const MAP_SIZES: [usize; 12] = [
     64 << 10,
     96 << 10,
@@ -571,7 +670,7 @@ pub fn run(o: &FaultOpts, out: &mut dyn Write) -> Result<u64, String> {
     let quick = o.tier == Tier::Quick;
     let all = o.part == "all";
     let mut case = 0u64;
-    if !["all", "sweep", "mapsize", "tmpdir", "fdcheck"].contains(&o.part.as_str()) {
+    if !["all", "sweep", "mapsize", "mapsweep", "tmpdir", "fdcheck"].contains(&o.part.as_str()) {
         return Err(format!("unknown --part {}", o.part));
     }
     if all || o.part == "sweep" {
@@ -601,6 +700,13 @@ pub fn run(o: &FaultOpts, out: &mut dyn Write) -> Result<u64, String> {
                 gen::run_case(&p, case, seed, &overrides, out)?;
                 case += 1;
             }
+        }
+    }
+    if all || o.part == "mapsweep" {
+        let n = o.cases.unwrap_or(if quick { 1 } else { 6 });
+        for k in 0..n {
+            map_sweep(&mut case, case_seed(o.seed ^ 0x6d73_7770, 2 * k), false, out)?;
+            map_sweep(&mut case, case_seed(o.seed ^ 0x6d73_7770, 2 * k + 1), true, out)?;
         }
     }
     if all || o.part == "tmpdir" {
